@@ -1685,8 +1685,8 @@ class Finalize(EnvironmentFilter):
     def filter(self, interactions: Iterable[Interaction]) -> Iterable[Interaction]:
         first,interactions = peek_first(self._emptycheker.filter(interactions))
 
-        rwds_is_list  = first and isinstance(first.get('rewards')  ,list)
-        fbks_is_list  = first and isinstance(first.get('feedbacks'),list)
+        rwds_is_list  = first and isinstance(first.get('rewards')  ,(list,tuple))
+        fbks_is_list  = first and isinstance(first.get('feedbacks'),(list,tuple))
 
         interactions = Pipes.join(Harden(),Repr("onehot","onehot")).filter(interactions)
 
